@@ -105,10 +105,10 @@ def r1(ctx):
     except sym.Unmodelled:
         pass
     tp = param_names(gti.node)[1]
-    hn = _restrict_helper(P).node.name
-    ok = sym.pm_any([f"[VAR_i for VAR_t in [*self.{hn}({tp}, **formula_kwargs)] for VAR_i in self.term_indices[VAR_t]]",
-                     f"[VAR_i for VAR_t in list(self.{hn}({tp}, **formula_kwargs)) for VAR_i in self.term_indices[VAR_t]]",
-                     f"[VAR_i for VAR_t in self.{hn}({tp}, **formula_kwargs) for VAR_i in self.term_indices[VAR_t]]"], c) is not None
+    hc = _restrict_call(P, f"{tp}, **formula_kwargs")
+    ok = sym.pm_any([f"[VAR_i for VAR_t in [*{hc}] for VAR_i in self.term_indices[VAR_t]]",
+                     f"[VAR_i for VAR_t in list({hc}) for VAR_i in self.term_indices[VAR_t]]",
+                     f"[VAR_i for VAR_t in {hc} for VAR_i in self.term_indices[VAR_t]]"], c) is not None
     ctx.check(ok, "C10.R1", "get_term_indices concatenates term_indices in the order of the requested terms", gti.where, ctx.construct(gti, text="get_term_indices"),
               f"returns `{norm(c)[:140] if c is not None else None}`")
 
@@ -118,14 +118,24 @@ def _restrict_helper(P):
     `__get_restricted_formula`): found by role — called on self from `subset`, and itself calling `SimpleFormula.from_spec`."""
     sb = P.method(MS, "subset", inherited=False)
     called = [c.func.attr for c in ast.walk(sb.node) if isinstance(c, ast.Call) and isinstance(c.func, ast.Attribute) and norm(c.func.value) == "self"]
+    # … or a module-level function that is handed `self`
+    called_mod = [c.func.id for c in ast.walk(sb.node) if isinstance(c, ast.Call) and isinstance(c.func, ast.Name) and c.args and norm(c.args[0]) == "self"]
     out = []
     for q, f in P.functions.items():
-        if q.startswith(MS + ".") and q.count(".") == MS.count(".") + 1 and f.node.name in called and f not in out and \
+        is_method = q.startswith(MS + ".") and q.count(".") == MS.count(".") + 1 and f.node.name in called
+        is_modfn = q == f"{sb.module.name}.{f.node.name}" and f.node.name in called_mod if not isinstance(f.node, ast.Lambda) else False
+        if (is_method or is_modfn) and f not in out and \
                 any(isinstance(c, ast.Call) and (dotted(c.func) or "").endswith("from_spec") for c in ast.walk(f.node)):
             out.append(f)
     if len(out) != 1:
         raise AnalysisError(f"C10: the restricting helper of ModelSpec.subset was not found (candidates: {[f.qualname for f in out]})")
     return out[0]
+
+
+def _restrict_call(P, args: str) -> str:
+    """The restricting helper applied to `self`, as the call is spelt: a method call or a module-level function handed self."""
+    h = _restrict_helper(P)
+    return f"self.{h.node.name}({args})" if h.cls is not None else f"{h.node.name}(self, {args})"
 
 
 def r2(ctx, rule="C10.R2"):
@@ -232,18 +242,17 @@ def r4(ctx):
     hn = rf[0].node.name
     _skel(ctx, "C10.R4", sb, "subset selects the parent's structure rows by term and emits them in the restricting formula's order", "subset", f"""
         def subset(self, {tp}, **formula_kwargs):
-            formula = self.{hn}({tp}, **formula_kwargs)
+            formula = {_restrict_call(P, tp + ", **formula_kwargs")}
             terms = list(formula)
             terms_set = set(terms)
             term_structure = {{s.term: s for s in self.__structure if s.term in terms_set}}
             return self.update(formula=formula, structure=[term_structure[term] for term in terms])
     """)
-    sp = param_names(rf[0].node)[1]
+    p0, sp = param_names(rf[0].node)[:2]
     _skel(ctx, "C10.R4", rf[0], "a restriction naming terms the parent does not have is rejected", "restrict", f"""
-        def {hn}(self, {sp}, **formula_kwargs):
+        def {hn}({p0}, {sp}, **formula_kwargs):
             formula = SimpleFormula.from_spec({sp}, **formula_kwargs)
-            ...
-            missing_terms = set(formula).difference(self.terms)
+            missing_terms = set(formula).difference({p0}.terms)
             if missing_terms:
                 raise ValueError(f"{{missing_terms}}")
             return formula
